@@ -99,3 +99,28 @@ package chain
 //@   ensures result == nil ==> self.rollbacks == old(self.rollbacks) + 1
 //@   ensures result != nil ==> self.rollbacks == old(self.rollbacks)
 //@   modifies self.momentumStoreAt, self.frontierStore, self.accountStoreAt, self.rollbacks
+
+// ---- C17: a node that does not implement an enforced spork stops -----------------------------------------------------------
+// unimplemented == nil  ==>  every activated spork whose enforcement height has been reached is implemented by this binary.
+// Callers (AddMomentumTransaction, chain.Init) call os.Exit when unimplemented != nil.
+//@ spec definedSporksOf(store store.Momentum) []*definition.Spork = slice("[]*definition.Spork", store.sporksArr, store.sporksOff, store.sporkCount)
+//@ spec enforcedUnknown(s *definition.Spork, h int) bool = s.Activated && s.EnforcementHeight <= h && !has(types.ImplementedSporksMap, s.Id)
+
+//@ func GotAllActiveSporksImplemented(store) -> (justNow, unimplemented, err)
+//@   ensures[all-implemented] err == nil && unimplemented == nil ==> forall k int :: 0 <= k && k < len(definedSporksOf(store)) ==> !enforcedUnknown(definedSporksOf(store)[k], store.idHeight)
+//@   modifies nothing
+//@   loop 1
+//@     invariant forall k int :: 0 <= k && k <= rangeindex ==> (enforcedUnknown(sporks[k], momentum.Height) ==> len(unimplemented) > 0)
+//@     invariant unimplemented == nil || fresh(unimplemented)
+
+//@ func momentumPool.getFrontierStore(c)
+//@   trusted
+//@   ensures int(result) == c.frontierStore
+//@   modifies nothing
+
+// Inserting a momentum returns normally only if, at the new frontier, every enforced spork is implemented (otherwise the
+// process exits): "a node that does not implement an enforced spork stops instead of continuing".
+//@ spec frontierOfPool(c *momentumPool) store.Momentum = iface("store.Momentum", c.frontierStore)
+//@ func momentumPool.AddMomentumTransaction(c, insertLocker, transaction)
+//@   requires c != nil && transaction != nil && transaction.Momentum != nil
+//@   ensures[halts-on-unknown-spork] result == nil ==> frontierOfPool(c) != nil ==> forall k int :: 0 <= k && k < len(definedSporksOf(frontierOfPool(c))) ==> !enforcedUnknown(definedSporksOf(frontierOfPool(c))[k], frontierOfPool(c).idHeight)
